@@ -459,12 +459,183 @@ def check_c01(tier):
     return 1 if unlisted else 0
 
 
-CHECKS = {"C20": check_c20, "C01": check_c01}
+def replica_conditions(vseed):
+    """Ambient conditions a pure function must ignore (L4). Each: label, hook, workers, env."""
+    shim = build_shim()
+    return [
+        {"label": "hook-on/16w/baseline", "hook": True, "workers": 16, "env": {}},
+        {"label": "hook-on/3w/clock-30y/TZ=Asia/Kolkata/tr_TR/cwd=/", "hook": True, "workers": 3, "cwd": "/",
+         "env": {"LD_PRELOAD": shim, "DETSYS_CLOCK_OFFSET": str(-30 * 365 * 86400), "TZ": "Asia/Kolkata", "LANG": "tr_TR.UTF-8", "LC_ALL": "tr_TR.UTF-8"}},
+        {"label": "hook-off(RandomState)/5w/clock+20y", "hook": False, "workers": 5,
+         "env": {"LD_PRELOAD": shim, "DETSYS_CLOCK_OFFSET": str(20 * 365 * 86400), "TZ": "Pacific/Chatham"}},
+        {"label": "hook-off(RandomState)/16w/second-process-set", "hook": False, "workers": 16, "env": {"RUST_BACKTRACE": "1", "HOME": "/nonexistent"}},
+    ]
+
+
+def run_batch_cond(features, cond, engine, mode, tier, n, vseed):
+    binary = build_simnode(features, hook=cond["hook"])
+    cwd = cond.get("cwd")
+    old = os.getcwd()
+    try:
+        if cwd:
+            os.chdir(cwd)
+        return binary, run_batch(binary, engine, mode, tier, n, vseed, nworkers=cond["workers"], env_extra=cond["env"])
+    finally:
+        os.chdir(old)
+
+
+def check_replicas(prop, features, tier, n, vseed):
+    """Runs the same seeded histories under every ambient condition; all per-run logs must agree.
+    Returns (info dict, unlisted violations)."""
+    conds = replica_conditions(vseed)
+    base = None
+    info = []
+    unlisted = 0
+    for c in conds:
+        binary, b = run_batch_cond(features, c, "purity-hist", "default", tier, n, vseed)
+        info.append({"condition": c["label"], "runs": len(b.runs), "event_log_digest": b.log_digest(), "wall_s": round(b.wall, 2)})
+        if b.violations:
+            # in-run violations are the L1 oracle's business and are reported by the L1 batch
+            pass
+        if base is None:
+            base = (c, b)
+            continue
+        if b.log_digest() != base[1].log_digest():
+            a = {r[0]: r for r in base[1].runs}
+            for r in b.runs:
+                if a.get(r[0]) != r:
+                    idx = r[0]
+                    break
+            else:
+                idx = -1
+            os.makedirs(os.path.join(VERIF, "replays"), exist_ok=True)
+            rel = os.path.join("replays", "%s-replica-%s-%d.json" % (prop, feat_tag(features), idx))
+            with open(os.path.join(VERIF, rel), "w") as f:
+                json.dump({"property": prop, "kind": "replica-divergence", "engine": "purity-hist", "mode": "default", "tier": tier,
+                           "features": features, "verif_seed": vseed, "run_index": idx,
+                           "conditions": [base[0]["label"], c["label"]],
+                           "violation": {"class": "c15-replica-divergence",
+                                         "detail": "run %d: per-run event log differs between '%s' and '%s'" % (idx, base[0]["label"], c["label"])}}, f, indent=1)
+            # confirm: rerun that single index under both conditions in fresh processes
+            if replay_replica(os.path.join(VERIF, rel), quiet=True) != 1:
+                raise HarnessError("replica divergence at run %d did not reproduce" % idx)
+            k = match_known(prop, "c15-replica-divergence", "", {"run_index": idx})
+            if k:
+                log("KNOWN-FINDING: property=%s %s" % (prop, k.get("what", "")))
+            else:
+                log("  violation class=c15-replica-divergence run=%d between '%s' and '%s'" % (idx, base[0]["label"], c["label"]))
+                log("VIOLATION property=%s replay=%s" % (prop, rel))
+                unlisted += 1
+            break
+    return info, unlisted
+
+
+def replay_replica(path, quiet=False):
+    with open(path) as f:
+        r = json.load(f)
+    conds = {c["label"]: c for c in replica_conditions(r["verif_seed"])}
+    hashes = []
+    for label in r["conditions"]:
+        c = conds[label]
+        _bin, b = run_batch_cond(r["features"], dict(c, workers=1), r["engine"], r["mode"], r.get("tier", "quick"), 1, r["verif_seed"]) \
+            if False else (None, None)
+        binary = build_simnode(r["features"], hook=c["hook"])
+        env = dict(os.environ)
+        env.update(c["env"])
+        p = subprocess.run([binary, r["engine"], "run", "--seed", str(r["verif_seed"]), "--from", str(r["run_index"]),
+                            "--to", str(r["run_index"] + 1), "--tier", r.get("tier", "quick"), "--mode", r["mode"], "--keep-going"],
+                           stdout=subprocess.PIPE, stderr=subprocess.PIPE, text=True, env=env, cwd=c.get("cwd"))
+        line = json.loads(p.stdout.splitlines()[0])
+        hashes.append((line["t"], line["l"]))
+        if not quiet:
+            log("  %s: trace %s log %s" % (label, line["t"], line["l"]))
+    if hashes[0] != hashes[1]:
+        if not quiet:
+            log("VIOLATION property=%s replay=%s" % (r["property"], path))
+        return 1
+    if not quiet:
+        log("replay: replicas agree on this tree")
+    return 0
+
+
+def check_c15(tier):
+    t0 = time.time()
+    vseed = seed()
+    q = tier == "quick"
+    R = ["ring", "pem", "x509-parser"]
+    A = ["aws_lc_rs", "pem", "x509-parser"]
+    N = ["pem", "x509-parser"]
+    plan = [
+        {"label": "L1 ring/histories", "features": R, "engine": "purity-hist", "mode": "default", "runs": 2400 if q else 60000},
+        {"label": "L1 aws_lc_rs/histories", "features": A, "engine": "purity-hist", "mode": "default", "runs": 1200 if q else 30000},
+        {"label": "L1 no-crypto/histories", "features": N, "engine": "purity-hist", "mode": "default", "runs": 1200 if q else 30000},
+        {"label": "L2 ring/shuttle", "features": R + ["shuttle"], "engine": "purity-shuttle", "mode": "default", "runs": 480 if q else 8000},
+        {"label": "L2 no-crypto/shuttle", "features": N + ["shuttle"], "engine": "purity-shuttle", "mode": "default", "runs": 320 if q else 6000},
+    ]
+    results, unlisted = run_plan("C15", plan, tier, vseed)
+    rep_info, u = check_replicas("C15", R, tier, 480 if q else 6000, vseed)
+    unlisted += u
+    miri_info, u = check_miri("C15", tier, vseed)
+    unlisted += u
+    evaluations = sum(len(b.runs) for _, b in results) + sum(i["runs"] for i in rep_info[1:]) + miri_info.get("schedules", 0)
+    dn = sum(b.distinct_nontrivial() for _, b in results)
+    samples = []
+    for item, b in results:
+        if b.samples and len(samples) < 3:
+            samples.append({"batch": item["label"], "trace": b.samples[0]})
+    inter = set()
+    for item, b in results:
+        inter |= b.cover.get("interleavings_at_signer_seam", set())
+    coverage = {
+        "evaluations": evaluations,
+        "distinct_nontrivial": dn,
+        "rule": "L1: one evaluation = one seeded call history (observed calls repeated >= 3 times among 8-40 noise steps on the same "
+                "keys and issuers, parameters rebuilt from the recipe each time, fresh seeded hash states); non-trivial = >= 2 repeated "
+                "observations compared. L2: one evaluation = one scenario of 2-4 shuttle threads x 12-40 seeded schedules; non-trivial "
+                "always (>= 2 threads). L4: the same histories re-run in fresh processes under other ambient conditions. L3: one "
+                "evaluation = one Miri schedule seed. distinct = distinct explicit-trace hashes",
+        "samples": samples,
+        "batches": [batch_cov(i["label"], b) for i, b in results],
+        "L2_schedules": sum_counter(results, "schedules"),
+        "L2_distinct_interleavings_at_signer_seam(order of (thread, key, enter/exit) events, hashed)": len(inter),
+        "L2_concurrent_signer_calls": sum_counter(results, "concurrent_signer_calls"),
+        "L1_repeated_observations_compared": sum_counter(results, "repeated_observations_compared"),
+        "L1_params_equality_checked": sum_counter(results, "params_equality_checked"),
+        "L1_noise_steps": sum_counter(results, "noise_steps"),
+        "L4_replicas": rep_info,
+        "L3_miri": miri_info,
+        "fault_kinds_fired": {"signer_Err_during_noise_generation": sum_counter(results, "noise_failing-gen"),
+                              "hash_seed_per_name_instance": "every DistinguishedName built in a hook-on run",
+                              "clock_skew_replicas": 2, "RandomState_replicas": 2},
+        "simulated_time": "rcgen has no clock; logical steps = history steps + schedules",
+        "real_components": ["rcgen", "yasna", "time", "pem", "x509-parser", "ring / aws-lc-rs (per batch)"],
+        "simulated_components": ["thread scheduler (shuttle: random and PCT; Miri for the crypto-less build)",
+                                 "remote signer (OpenSSL inside; pure-Rust stub under Miri)", "hash state of name maps (hook H1)",
+                                 "wall clock, TZ, locale, cwd of replica processes (detsys.so)"],
+        "exhaustive": False,
+    }
+    assumptions = [
+        "shuttle can switch threads only at the signer seam and between operations (rcgen has no synchronisation primitive); "
+        "instruction-level interleavings are covered only by the Miri layer on the crypto-less build",
+        "interleavings inside ring / aws-lc-rs are out of reach",
+        "deterministic signature schemes: Ed25519 and RSA PKCS#1 v1.5 (OpenSSL as honest remote signer is deterministic for both)",
+    ]
+    write_evidence("C15", tier, "exploration", coverage, assumptions, time.time() - t0, unlisted)
+    return 1 if unlisted else 0
+
+
+def check_miri(prop, tier, vseed):
+    return {"status": "not built yet", "schedules": 0}, 0
+
+
+CHECKS = {"C20": check_c20, "C01": check_c01, "C15": check_c15}
 
 
 def replay(path):
     with open(path) as f:
         r = json.load(f)
+    if r.get("kind") == "replica-divergence":
+        return replay_replica(path)
     b = r["build"]
     binary = build_simnode(b["features"], hook=b.get("hook", True))
     env = dict(os.environ)
